@@ -28,7 +28,21 @@ def build_cases(env, sessions_per_cell, maxmsgs, big_share):
                     if k == sessions_per_cell - 1 and (kdf + aead) % 2 == 0:
                         # the crate accepts an empty bundle in the PSK modes; it has to round-trip too
                         psk = pskid = "-"
-                gen.add_pair(s, g, kem, mode, info=info, psk=psk, pskid=pskid)
+                m = gen.add_pair(s, g, kem, mode, info=info, psk=psk, pskid=pskid)
+                if env.rnd.random() < 0.5:
+                    # the single-shot forms, opened by single-shot and by composed receivers, info != aad
+                    for api in APIS:
+                        q = "q" + api
+                        sinfo = g.rbytes(env.rnd.choice([0, 3, 40]))
+                        saad = g.rbytes(env.rnd.choice([0, 5, 33]))
+                        s.meta[q] = saad
+                        s.call("ss_seal", mode=mode, pkr="$kR.pk", info=sinfo, pt=g.rbytes(g.length(gen.LEN_SMALL, maxrand=300)), aad=saad,
+                               rng=g.rbytes(gen.nsk(kem)), api=api, out=q, **m["sargs"])
+                        ra = dict(mode=mode, skr="$kR.sk", enc="$%s.enc" % q, info=sinfo, **m["rargs"])
+                        s.call("ss_open", api="alloc", ct="$%s.full" % q, aad=saad, of=q, **ra)
+                        s.call("ss_open", api="inplace", ct="$%s.ct" % q, tag="$%s.tag" % q, aad=saad, of=q, **ra)
+                        s.call("setup_r", out="R" + q, **ra)
+                        s.call("open", ctx="R" + q, api="alloc", ct="$%s.full" % q, aad=saad, of=q)
                 nm = [0, 1, 2][k] if k < 3 and sessions_per_cell >= 3 else env.rnd.randrange(1, maxmsgs + 1)
                 if k == 0 and sessions_per_cell < 3:
                     nm = env.rnd.choice([1, 2, env.rnd.randrange(3, maxmsgs + 1)])
@@ -81,12 +95,12 @@ def monitor(sess, extra):
                 r.violation("C01:%s:%s" % (op.op, op.outcome()),
                             "%s with matching honest parameters failed: %s [suite %s mode %s]" % (op.op, op.outcome(), cell, mode), sess, op)
                 return r
-        elif op.op == "seal":
+        elif op.op in ("seal", "ss_seal"):
             if not op.ok():
                 r.violation("C01:seal:%s" % op.outcome(), "seal failed: %s [suite %s mode %s]" % (op.outcome(), cell, mode), sess, op)
                 continue
             pt = op.b["pt"]
-            if op.args["api"] == "alloc":
+            if op.args["api"] == "alloc" and op.op == "seal":
                 full = op.out("full")
                 if len(full) != len(pt) + nt:
                     r.violation("C01:ctlen:alloc", "ciphertext length %d != plaintext length %d + tag %d" % (len(full), len(pt), nt), sess, op)
@@ -95,7 +109,7 @@ def monitor(sess, extra):
                 if len(ct) != len(pt) or len(tag) != nt:
                     r.violation("C01:ctlen:inplace", "in-place seal: buffer %d (plaintext %d), tag %d (Nt %d)" % (len(ct), len(pt), len(tag), nt), sess, op)
             seals[op.args["out"]] = op
-        elif op.op == "open" and "of" in op.args:
+        elif op.op in ("open", "ss_open") and "of" in op.args:
             so = seals.get(op.args["of"])
             if so is None:
                 continue
@@ -111,9 +125,9 @@ def monitor(sess, extra):
             if not same:
                 r.violation("C01:plaintext", "message %s opened to a different plaintext [suite %s mode %s]" % (op.args["of"], cell, mode), sess, op)
                 continue
-            r.distinct.add((sess.ids, mode, gen.lenclass(len(want)), gen.lenclass(len(op.b["aad"])), so.args["api"], op.args["api"]))
+            r.distinct.add((sess.ids, mode, gen.lenclass(len(want)), gen.lenclass(len(op.b["aad"])), so.op + so.args["api"], op.op + op.args["api"]))
             r.counts["cell:%s/m%s" % (cell, mode)] += 1
-            r.counts["api:%s->%s" % (so.args["api"], op.args["api"])] += 1
+            r.counts["api:%s%s->%s%s" % ("ss_" if so.op == "ss_seal" else "", so.args["api"], "ss_" if op.op == "ss_open" else "", op.args["api"])] += 1
             r.counts["ptlen:%s" % gen.lenclass(len(want))] += 1
     nm = len(seals)
     r.counts["seqlen:%s" % ("0" if nm == 0 else "1" if nm == 1 else "2" if nm == 2 else "3-15" if nm < 16 else "16+")] += 1
